@@ -111,6 +111,15 @@ def build(case):
     span = spans.build(desc)
     n = len(span)
     init = {nm: np.array(case.get('init', {}).get(nm, [1.0 + i for i in range(n)]), dtype=float) for nm in endo + ['X']}
+    mixed = case.get('mixed')
+    if mixed:
+        # model dtype int / float32 with a float64 variable added afterwards and put on the check list
+        m = cls(span, dtype={'int': int, 'float32': np.float32}[mixed], **{k: v.copy() for k, v in init.items()})
+        m.add_variable('R', np.array(case.get('init', {}).get('R', [0.0] * n), dtype=float), dtype=float)
+        m.check = list(m.check) + ['R'] if case.get('check') is None else list(case['check'])
+        init = {k: np.asarray(m[k]).astype(float) for k in endo + ['X', 'R']}
+        scripted.arm(m, case.get('script'), case.get('hooks'))
+        return m, endo + ['R'], list(m.check), init, n, desc
     m = cls(span, **{k: v.copy() for k, v in init.items()})
     scripted.arm(m, case.get('script'), case.get('hooks'))
     return m, endo, list(cls.CHECK), init, n, desc
@@ -213,7 +222,7 @@ def check_scripted(case):
         if d and not d.startswith('d._log'):
             res.fail(f'solve_t/{cls}/rejected-call-changed-state', f'{detail}: changed {d}')
         return res
-    ok = compare_states(res, f'solve_t/{cls}', m, ref, endo + ['X'], detail) and ok
+    ok = compare_states(res, f'solve_t/{cls}', m, ref, [nm for nm in endo + ['X'] if nm in ref['values']], detail) and ok
     log = m.__dict__['_log']
     evals = [e for e in log if e[0] == 'eval']
     if [e[2] for e in evals] != want.iteration_args:
